@@ -14,7 +14,7 @@ import random
 PROPERTY = "C18"
 LEVEL = "exploration"
 RULE = ("histories of up to 12 (quick) / 50 (thorough) earlier assemblies drawn from valid, failing, internally crashing and hostile "
-        "(mutated) programs, then each of several probes out of 16 (valid with warnings, failing with several errors, .repeat, multi-file, "
+        "(mutated) programs, then each of several probes out of 17 (valid with warnings, failing with several errors, .repeat, multi-file, "
         "include, make_*), compared with the same probe in a fresh process; PYTHONHASHSEED 0-3 (quick) / 0-31 (thorough); "
         "distinct = distinct (history signature, probe) pairs")
 ASSUMPTIONS = ["diagnostic text is not compared (it legitimately contains d<counter> names); severity, identifier and positions are",
@@ -39,6 +39,7 @@ PROBES = [
     ("fail-late", [("p.mac", "x = y + 1\n.word x\n.blkb z\nz = 0-1\ny = 177777\n")]),
     ("locals", [("p.mac", "a: 1$: br 1$\n br 2$\n2$: nop\nb: 1$: br 1$\n .word 1$\n")]),
     ("extern-all", [("a.mac", ".extern all\np1: .word q1\n"), ("b.mac", "q1:: .word p1\n")]),
+    ("unused-errors", [("p.mac", "a1 = nosuch1\nzz9 = nosuch2\nc1 = 5/0\nm5 = 1 << q\nq = 0-1\nb2 = nosuch3 + 1\n nop\n")]),
     ("undefined-after-define", [("p.mac", "v = 10\n.word v, w\n")]),
 ]
 
